@@ -206,10 +206,66 @@ class Unextractor:
                 out[p] = h.defaults[p]
         return out
 
-    def instantiate(self, h, call):
+    def _module_names(self, module):
+        out = set()
+        for st in self.trees[module].body:
+            if isinstance(st, (ast.FunctionDef, ast.AsyncFunctionDef, ast.ClassDef)):
+                out.add(st.name)
+            elif isinstance(st, ast.Assign):
+                for t in st.targets:
+                    for x in ast.walk(t):
+                        if isinstance(x, ast.Name):
+                            out.add(x.id)
+            elif isinstance(st, (ast.Import, ast.ImportFrom)):
+                for al in st.names:
+                    out.add((al.asname or al.name).split(".")[0])
+        return out
+
+    def _carry_imports(self, h, module):
+        """A helper written in another module brings the module-level names it uses with it."""
+        if h.module == module:
+            return True
+        have = self._module_names(module)
+        there = self._module_names(h.module)
+        need = set()
+        for s_ in h.body:
+            for n in ast.walk(s_):
+                if isinstance(n, ast.Name) and isinstance(n.ctx, ast.Load) and n.id not in h.locals and n.id not in h.params \
+                        and n.id != "self" and n.id in there and n.id not in have:
+                    need.add(n.id)
+        clash = {n.id for s_ in h.body for n in ast.walk(s_) if isinstance(n, ast.Name) and isinstance(n.ctx, ast.Load)
+                 and n.id in there and n.id in have and n.id not in h.locals and n.id not in h.params} 
+        # a name both modules bind must mean the same thing: only imports of the same origin are accepted
+        for name in clash:
+            if self._origin(h.module, name) != self._origin(module, name):
+                return False
+        if need:
+            imp = ast.ImportFrom(module=h.module, names=[ast.alias(name=n, asname=None) for n in sorted(need)], level=0)
+            imp.lineno = imp.col_offset = 0
+            self.trees[module].body.insert(0, imp)
+            ast.fix_missing_locations(self.trees[module])
+        return True
+
+    def _origin(self, module, name, depth=0):
+        for st in self.trees[module].body:
+            if isinstance(st, ast.ImportFrom):
+                for al in st.names:
+                    if (al.asname or al.name) == name:
+                        if st.module in self.trees and depth < 6:
+                            return self._origin(st.module, al.name, depth + 1)
+                        return (st.module, al.name)
+            elif isinstance(st, ast.Import):
+                for al in st.names:
+                    if (al.asname or al.name).split(".")[0] == name:
+                        return ("import", al.name)
+        return (module, name)
+
+    def instantiate(self, h, call, module=None):
         """(prefix statements, result expression or None) of the helper applied to the call's arguments."""
         b = self.bind(h, call)
         if b is None:
+            return None
+        if module is not None and not self._carry_imports(h, module):
             return None
         self.counter += 1
         tag = "__%s%d" % (h.name.strip("_"), self.counter)
@@ -252,7 +308,7 @@ class Unextractor:
                 self.generic_visit(n)
                 h = me.resolve(n, module, cname)
                 if h is not None and h.kind == "expr" and h.node is not owner:
-                    r = me.instantiate(h, n)
+                    r = me.instantiate(h, n, module)
                     if r is not None and not r[0]:
                         me.inlined.append(h.name)
                         return ast.copy_location(r[1], n)
@@ -275,7 +331,7 @@ class Unextractor:
                     and st.body[0].value.value.id == st.target.id and isinstance(st.iter, ast.Call):
                 h = self.resolve(st.iter, module, cname)
                 if h is not None and h.kind == "gen" and h.node is not owner:
-                    r = self.instantiate(h, st.iter)
+                    r = self.instantiate(h, st.iter, module)
                     if r is not None:
                         self.inlined.append(h.name)
                         return self.rewrite_block(r[0], module, cname, owner)
@@ -297,7 +353,7 @@ class Unextractor:
         if isinstance(st, ast.Expr) and isinstance(st.value, ast.Call):
             h = self.resolve(st.value, module, cname)
             if h is not None and h.node is not owner and h.kind in ("proc", "tail", "expr"):
-                r = self.instantiate(h, st.value)
+                r = self.instantiate(h, st.value, module)
                 if r is not None:
                     self.inlined.append(h.name)
                     tail = []
@@ -307,7 +363,7 @@ class Unextractor:
         if isinstance(st, ast.Expr) and isinstance(st.value, ast.YieldFrom) and isinstance(st.value.value, ast.Call):
             h = self.resolve(st.value.value, module, cname)
             if h is not None and h.kind == "gen" and h.node is not owner:
-                r = self.instantiate(h, st.value.value)
+                r = self.instantiate(h, st.value.value, module)
                 if r is not None:
                     self.inlined.append(h.name)
                     return self.rewrite_block(r[0], module, cname, owner)
@@ -346,7 +402,7 @@ class Unextractor:
             if target_call is not None:
                 h = self.resolve(target_call, module, cname)
                 if h is not None and h.node is not owner:
-                    r = self.instantiate(h, target_call)
+                    r = self.instantiate(h, target_call, module)
                     if r is not None:
                         self.inlined.append(h.name)
                         setter(ast.copy_location(r[1], target_call))
